@@ -337,6 +337,29 @@ def run_length_ratio(sx):
     return "ok"
 
 
+def run_count_forms(sx):
+    """a count that is not a plain int (a float from a division, a numpy integer): the relations see the integer that is
+    returned, i.e. the given ratio / size is reproduced with the cell count blockMesh will use"""
+    import numpy as _np
+    L = _inputs(sx)
+    c = sx.real("c", Fraction(1, 2), 2)
+    form = sx.choice("form", 4)
+    given = [2.5, 3.999, 4.0, _np.int64(3)][form]
+    want_n = [2, 3, 4, 3][form]
+    out = _calc(sx, L, count=given, c2c_expansion=c)
+    sx.reach(out[0])
+    tag = f"count={given!r} ({type(given).__name__})"
+    if out[0] != "ok":
+        sx.prove(False, f"{tag} & c2c: a realisable pair is accepted", "C03:count-forms:rejected", info={"exception": out[1]})
+        return out[0]
+    _, n, T, chop = out
+    sx.prove(n == want_n and isinstance(n, int), f"{tag}: the returned count is the integer {want_n}", "C03:count-forms:count",
+             info={"returned": str(n)})
+    sx.prove_close(T, _pow_n(c, want_n - 1), f"{tag} & c2c: total expansion == c2c**(returned count - 1)", tol=1e-12,
+                   key="C03:count-forms:total")
+    return "ok"
+
+
 def run_multigrading(sx):
     """a multigraded edge seen from the other end: the divisions in reverse order, each with its own length fraction and
     count and the reciprocal of its own expansion"""
@@ -389,4 +412,5 @@ def jobs(tier, seed):
             add("run_two_sizes", pair, pair=pair)
     add("run_length_ratio", "grading+length_ratio")
     add("run_multigrading", "grading|three divisions|inverted")
+    add("run_count_forms", "count given as float / numpy integer")
     return js
